@@ -142,12 +142,57 @@ def task(t):
                     return "dec:derived:amount-op-before-scale"
                 return "dec:derived:%s-%s-%s" % knd
             discharge(pair, th, pre, outs, role_of, case_of, [a, b])
+    elif kind == "rate":
+        from props import C13
+        TQ, PQ = spec
+        tu = ua
+        for pu in w.units(PQ):
+            for form, OQ in (("rate*q", PQ), ("q/rate", TQ)):
+                for vu in w.units(OQ):
+                    pair = "dec Rate<%s,%s>[%s per %s] %s [%s]" % (TQ, PQ, tu, pu, form, vu)
+                    th = T.TRed()
+                    run = driver.Run(w, th)
+                    ta, pm, v = th.var("ta"), th.var("pm"), th.var("v")
+                    pre = mags(TQ, ta.term, tu, False) + mags(PQ, pm.term, pu, False) + mags(OQ, v.term, vu)
+                    if form == "rate*q":
+                        c = sc(PQ, pu) / sc(PQ, vu)
+                        x1 = v.term / T.Q(c)                      # the operand expressed in the per unit
+                        res_amt = ta.term * x1 / pm.term
+                        RT, ru = TQ, tu
+                    else:
+                        c = sc(TQ, tu) / sc(TQ, vu)
+                        x1 = v.term / T.Q(c)
+                        res_amt = pm.term * x1 / ta.term
+                        RT, ru = PQ, pu
+                    if not (LO <= c <= HI):
+                        continue
+                    pre += [P(T, x1), P(T, x1 / (pm.term if form == "rate*q" else ta.term))]
+                    pre += mags(RT, res_amt, ru)
+                    run.assume(*pre)
+                    st = run.state()
+                    rate = C13.mk_rate(run, st, TQ, PQ, ta, tu, pm, pu)
+                    qv = run.qty(st, OQ, v, vu)
+                    if form == "rate*q":
+                        outs = run.call(st, "<rate::Rate<%s, %s> as Mul<%s>>::mul" % (TQ, PQ, PQ), [rate, qv])
+                    else:
+                        outs = run.call(st, "<%s as Div<rate::Rate<%s, %s>>>::div" % (TQ, TQ, PQ), [qv, rate])
+                    R.absorb_exec(run.ex)
+                    rop = "rate_mul" if form == "rate*q" else "qty_div_rate"
+
+                    def case_of(model, role, rop=rop, ta=ta, pm=pm, v=v, pu=pu, vu=vu, pair=pair):
+                        am = E.model_amounts(model, [ta, pm, v], be)
+                        return E.cand("C18", "panic", be, w, rop, [TQ, PQ], [tu, pu, vu], am, pair, role="dec:%s:%s" % (rop, role))
+                    discharge(pair, th, pre, outs, lambda knd, desc: "%s-%s-%s" % knd, case_of, [ta, pm, v])
     R.absorb_solver(sv)
     return R
 
 
 def oracle(c, out, scales):
     be = c["backend"]
+    if c["op"] in ("rate_mul", "qty_div_rate"):
+        if out.startswith("PANIC"):
+            return True, "rate operation panics natively (%s): %s %s %s" % (out[6:60], c["op"], c["units"], c["amounts"])
+        return False, out
     if out.startswith("PANIC"):
         # the amounts must really satisfy the precondition (they were rounded to 18 digits): re-check exactly
         ok, why = precondition_holds(c, scales)
@@ -332,8 +377,11 @@ def run(report, tier):
             for inst in d["operators"]:
                 for ua in d["units"][inst[0]]:
                     tasks.append(("dec", "derived", inst, ua))
+            for tq, pq in [("Length", "Duration"), ("Mass", "Length")]:
+                for tu in d["units"][tq]:
+                    tasks.append(("dec", "rate", (tq, pq), tu))
             E.shuffle(tasks)
-            report.bounds["decimal"] = "all reals satisfying the precondition; every ordered unit pair of every type with reference unit (convert, compare, +, -, /) and every operand unit pair of the 34 derived operators"
+            report.bounds["decimal"] = "all reals satisfying the precondition; every ordered unit pair of every type with reference unit (convert, compare, +, -, /), every operand unit pair of the 34 derived operators, every unit triple of rate*q and q/rate for Rate<Length,Duration> and Rate<Mass,Length>"
             cands = pool.run(report, task, tasks)
             pool.cross_check(report)
             E.native_confirm(report, "C18", cands, desc, oracle, probes=variants, max_groups=60, by_role=True, per_group=12)
